@@ -193,3 +193,32 @@ pub fn all_variations() -> Vec<crate::app::Variation> {
     }
     v
 }
+
+fn with_header_writer(
+    f: impl FnOnce(&mut crate::app::format::write::HeaderWriter) -> bool,
+) -> Option<Vec<u8>> {
+    let mut buf = vec![0u8; 8192];
+    let mut cursor = scursor::WriteCursor::new(&mut buf);
+    let ok = {
+        let mut w = crate::app::format::write::HeaderWriter::new(&mut cursor);
+        f(&mut w)
+    };
+    let n = cursor.position();
+    if ok {
+        Some(buf[..n].to_vec())
+    } else {
+        None
+    }
+}
+/// object headers of a READ request as the master would put them on the wire
+pub fn read_request_bytes(r: &crate::master::ReadRequest) -> Option<Vec<u8>> {
+    with_header_writer(|w| r.format(w).is_ok())
+}
+/// object headers of a generic request
+pub fn headers_bytes(h: &crate::master::Headers) -> Option<Vec<u8>> {
+    with_header_writer(|w| h.write(w).is_ok())
+}
+/// object headers of a command request
+pub fn command_bytes(c: &crate::master::CommandHeaders) -> Option<Vec<u8>> {
+    with_header_writer(|w| c.write(w).is_ok())
+}
